@@ -29,9 +29,23 @@
 (* the instance from the pool) are set as the code is MEANT to be in the design configuration;  *)
 (* clearing one yields a counterexample = the shortest bad schedule to try on the real code.    *)
 (* Granularity Gran: "fine" every step interleaves; "gate" a goroutine runs from one scheduling *)
-(* gate (the verif hooks after pool.Get and after pool.Put) to the next; "call" calls are       *)
-(* atomic (what can be forced on a tree without hooks).  Sched records which goroutine was      *)
-(* resumed at each gate: the schedules replayed on the real code.                               *)
+(* gate (the verif hooks after pool.Get and after pool.Put, and the USER's hook of a "hook"     *)
+(* call) to the next; "hook" the gates are the call boundaries and the user's hooks only (user  *)
+(* code: available on any tree, no verif hooks needed); "call" calls are atomic.  Sched records *)
+(* which goroutine was resumed at each gate: the schedules replayed on the real code.           *)
+(*                                                                                             *)
+(* Resource class "scratch" (API class "hook"): a call that runs USER code in the middle - a    *)
+(* MarshalJSON / MarshalText / Simplify / Generic / UnmarshalJSON / SetAttr method, a composer  *)
+(* function, a callback - keeps per-call state across that hook: the nesting depth, the bytes   *)
+(* it hands to the hook, a validator's stack.  Two linearization points:                        *)
+(*   ScratchBegin  the call fills its scratch and enters the user's hook                        *)
+(*   HookRun       the hook (which may yield, block, or call back into the package) reads what  *)
+(*                 it was handed / the call reads its scratch back; the result depends on it    *)
+(* Scratch = "percall": the scratch belongs to the call (the code as it is meant to be);        *)
+(* "global": ONE package-level object used between the two points without a lock - two calls    *)
+(* inside at the same time violate NoUnlockedWriteRead and SequentialEquivalence; "released":   *)
+(* the scratch is a pooled instance that is put back BEFORE the hook reads it - the hook holds  *)
+(* a buffer that another caller's call writes: BufferIsolation (the hook is the caller's code). *)
 EXTENDS Naturals, Sequences, FiniteSets, TLC, Json
 
 CONSTANTS N,              \* goroutines
@@ -41,7 +55,8 @@ CONSTANTS N,              \* goroutines
           LockedLookup,   \* cache lookup happens under the mutex
           PreRegistered,  \* recomposer registry is only read during concurrent use
           ExclusivePool,  \* pool.Get removes the instance from the pool
-          Gran            \* "fine" | "gate" | "call"
+          Scratch,        \* "percall" | "global" | "released": where a "hook" call keeps its state across the user's hook
+          Gran            \* "fine" | "gate" | "hook" | "call"
 
 G == 1..N
 
@@ -53,6 +68,8 @@ G == 1..N
 \*   struct    oj.JSON(struct) / sen.String(struct) / alt.Decompose   struct-info cache, then as json
 \*   recompose alt.Recompose with pre-registered types         registry read, no pool
 \*   pure      pretty.JSON, oj.Validate, oj.Tokenize, jp.Expr.Get ...  no shared state at all
+\*   hook      any of the above on values / targets with user hooks (json.Marshaler, TextMarshaler, Simplifier,
+\*             Genericer, json.Unmarshaler, AttrSetter, composer functions, callbacks) and on deeply nested data
 PoolOf(a) == CASE a \in {"json", "struct"} -> "writer"
                [] a \in {"marshal"} -> "marshalw"
                [] a \in {"bytes"} -> "writer"
@@ -61,7 +78,8 @@ PoolOf(a) == CASE a \in {"json", "struct"} -> "writer"
 UsesCache(a) == a = "struct"
 UsesRegistry(a) == a = "recompose"
 ReturnsBuffer(a) == a \in {"marshal", "bytes"}     \* result is a []byte that COULD be the pooled buffer
-AllApis == {"json", "marshal", "bytes", "parse", "struct", "recompose", "pure"}
+UsesHook(a) == a = "hook"
+AllApis == {"json", "marshal", "bytes", "parse", "struct", "recompose", "pure", "hook"}
 Pools == {"writer", "marshalw", "parser"}
 
 VARIABLES prog,     \* g -> sequence of API classes
@@ -77,10 +95,12 @@ VARIABLES prog,     \* g -> sequence of API classes
           lock,     \* goroutine holding the cache mutex (0: free)
           cached,   \* is the struct type already in the cache
           miss,     \* g -> last lookup missed
-          reading, writing,  \* sets of <<goroutine, map>> inside a read / write of the shared map "cache" or "registry"
+          reading, writing,  \* sets of <<goroutine, map>> inside a read / write of the shared map "cache", "registry" or "scratch"
+          gscratch, \* tag in the package-level scratch (Scratch = "global")
+          hinst,    \* g -> pooled instance whose buffer g's hook was handed (Scratch = "released"; 0: none)
           sched     \* goroutine resumed at each gate
 
-vars == <<prog, k, pc, inst, free, nextInst, buf, val, held, result, lock, cached, miss, reading, writing, sched>>
+vars == <<prog, k, pc, inst, free, nextInst, buf, val, held, result, lock, cached, miss, reading, writing, gscratch, hinst, sched>>
 
 SeqsUpTo(S, n) == UNION {[1..m -> S] : m \in 0..n}
 
@@ -89,13 +109,15 @@ Init == /\ prog \in [G -> SeqsUpTo(Menu, MaxCalls)]
         /\ free = [p \in Pools |-> {}] /\ nextInst = 1 /\ buf = <<>>
         /\ val = [g \in G |-> <<0, 0>>] /\ held = [g \in G |-> {}] /\ result = [g \in G |-> <<>>]
         /\ lock = 0 /\ cached = FALSE /\ miss = [g \in G |-> FALSE] /\ reading = {} /\ writing = {}
+        /\ gscratch = <<0, 0>> /\ hinst = [g \in G |-> 0]
         /\ sched = <<>>
 
 Api(g) == prog[g][k[g]]
 Active(g) == k[g] <= Len(prog[g])
 \* is h parked at a scheduling gate (so that another goroutine may run)?  The hooks exist in the pooled APIs only.
 Parked(h) == CASE Gran = "fine" -> TRUE
-               [] Gran = "gate" -> pc[h] = "idle" \/ (pc[h] \in {"got", "put"} /\ Active(h) /\ PoolOf(Api(h)) # "none")
+               [] Gran = "gate" -> pc[h] \in {"idle", "inhook"} \/ (pc[h] \in {"got", "put"} /\ Active(h) /\ PoolOf(Api(h)) # "none")
+               [] Gran = "hook" -> pc[h] \in {"idle", "inhook"}
                [] OTHER -> pc[h] = "idle"
 \* g may take a step only if every other goroutine is parked at a gate
 MayRun(g) == \A h \in G \ {g} : Parked(h)
@@ -103,7 +125,8 @@ Resume(g) == sched' = IF Parked(g) THEN Append(sched, g) ELSE sched
 
 Goto(g, p) == pc' = [pc EXCEPT ![g] = p]
 AfterGet(g) == IF UsesCache(Api(g)) THEN (IF LockedLookup THEN "need-lock" ELSE "need-read")
-               ELSE IF UsesRegistry(Api(g)) THEN "need-registry" ELSE "need-use"
+               ELSE IF UsesRegistry(Api(g)) THEN "need-registry"
+               ELSE IF UsesHook(Api(g)) THEN "need-scratch" ELSE "need-use"
 At(g, p) == pc[g] = p \/ (pc[g] = "got" /\ AfterGet(g) = p)
 
 \* ---- pool
@@ -114,20 +137,20 @@ PoolGet(g) == /\ Active(g) /\ pc[g] = "idle" /\ MayRun(g) /\ PoolOf(Api(g)) # "n
                     /\ nextInst' = IF i = nextInst THEN nextInst + 1 ELSE nextInst
                     /\ buf' = IF i = nextInst THEN Append(buf, <<0, 0>>) ELSE buf
               /\ Goto(g, "got") /\ Resume(g)
-              /\ UNCHANGED <<prog, k, val, held, result, lock, cached, miss, reading, writing>>
+              /\ UNCHANGED <<prog, k, val, held, result, lock, cached, miss, reading, writing, gscratch, hinst>>
 
 \* calls without a pool start directly
 NoPoolStart(g) == /\ Active(g) /\ pc[g] = "idle" /\ MayRun(g) /\ PoolOf(Api(g)) = "none"
                   /\ Goto(g, "got") /\ Resume(g)
-                  /\ UNCHANGED <<prog, k, inst, free, nextInst, buf, val, held, result, lock, cached, miss, reading, writing>>
+                  /\ UNCHANGED <<prog, k, inst, free, nextInst, buf, val, held, result, lock, cached, miss, reading, writing, gscratch, hinst>>
 
-Stay == UNCHANGED <<prog, k, inst, free, nextInst, buf, val, held, result>>
+Stay == UNCHANGED <<prog, k, inst, free, nextInst, buf, val, held, result, gscratch, hinst>>
 
 \* ---- struct-info cache
 CacheLock(g) == /\ (At(g, "need-lock") \/ pc[g] = "need-wlock")
                 /\ MayRun(g) /\ lock = 0 /\ lock' = g
                 /\ Goto(g, IF pc[g] = "need-wlock" THEN "need-write" ELSE "need-read") /\ Resume(g)
-                /\ Stay /\ UNCHANGED <<cached, miss, reading, writing>>
+                /\ Stay /\ UNCHANGED <<cached, miss, reading, writing, gscratch, hinst>>
 CacheReadBegin(g) == /\ At(g, "need-read") /\ MayRun(g)
                      /\ (LockedLookup => lock = g)
                      /\ reading' = reading \cup {<<g, "cache">>} /\ Goto(g, "rbegin") /\ Resume(g)
@@ -145,7 +168,7 @@ CacheWriteEnd(g) == /\ pc[g] = "wbegin" /\ MayRun(g)
                     /\ Stay /\ UNCHANGED <<lock, miss, reading>>
 CacheUnlock(g) == /\ pc[g] = "need-unlock" /\ MayRun(g) /\ lock = g /\ lock' = 0
                   /\ Goto(g, "need-use") /\ Resume(g)
-                  /\ Stay /\ UNCHANGED <<cached, miss, reading, writing>>
+                  /\ Stay /\ UNCHANGED <<cached, miss, reading, writing, gscratch, hinst>>
 
 \* ---- recomposer registry: read-only when the types were registered beforehand, otherwise the
 \* first use of a type writes the registry map without any lock
@@ -159,21 +182,52 @@ RegistryDone(g) == /\ pc[g] = "registry" /\ MayRun(g)
                    /\ Goto(g, "need-use") /\ Resume(g)
                    /\ Stay /\ UNCHANGED <<lock, cached, miss>>
 
-\* ---- the call proper
 Tag(g) == <<g, k[g]>>
+\* ---- scratch kept across the user's hook
+ScratchBegin(g) ==
+    /\ At(g, "need-scratch") /\ MayRun(g)
+    /\ CASE Scratch = "percall" ->
+              /\ val' = [val EXCEPT ![g] = Tag(g)]
+              /\ UNCHANGED <<free, nextInst, buf, held, writing, gscratch, hinst>>
+         [] Scratch = "global" ->
+              /\ gscratch' = Tag(g) /\ writing' = writing \cup {<<g, "scratch">>}
+              /\ UNCHANGED <<free, nextInst, buf, held, val, hinst>>
+         [] OTHER ->          \* "released": encode into a pooled instance, put it back, hand its buffer to the hook
+              \E i \in free["writer"] \cup {nextInst} :
+                 /\ free' = [free EXCEPT !["writer"] = @ \cup {i}]
+                 /\ nextInst' = IF i = nextInst THEN nextInst + 1 ELSE nextInst
+                 /\ buf' = IF i = nextInst THEN Append(buf, Tag(g)) ELSE [buf EXCEPT ![i] = Tag(g)]
+                 /\ hinst' = [hinst EXCEPT ![g] = i]
+                 /\ held' = [held EXCEPT ![g] = @ \cup {[call |-> 0, ref |-> i, tag |-> Tag(g)]}]
+                 /\ UNCHANGED <<val, writing, gscratch>>
+    /\ Goto(g, "inhook") /\ Resume(g)
+    /\ UNCHANGED <<prog, k, inst, result, lock, cached, miss, reading>>
+\* the user's hook ran (pc = "inhook" is a scheduling gate: user code may yield, block, call back into the package)
+HookRun(g) ==
+    /\ pc[g] = "inhook" /\ MayRun(g)
+    /\ CASE Scratch = "percall" -> UNCHANGED <<val, held, writing, hinst>>
+         [] Scratch = "global" -> /\ val' = [val EXCEPT ![g] = gscratch] /\ writing' = writing \ {<<g, "scratch">>}
+                                  /\ UNCHANGED <<held, hinst>>
+         [] OTHER -> /\ val' = [val EXCEPT ![g] = buf[hinst[g]]]
+                     /\ held' = [held EXCEPT ![g] = {x \in @ : x.call # 0}]
+                     /\ hinst' = [hinst EXCEPT ![g] = 0] /\ UNCHANGED writing
+    /\ Goto(g, "used") /\ Resume(g)
+    /\ UNCHANGED <<prog, k, inst, free, nextInst, buf, result, lock, cached, miss, reading, gscratch>>
+
+\* ---- the call proper
 Use(g) == /\ At(g, "need-use") /\ MayRun(g)
           /\ IF inst[g] # 0 THEN buf' = [buf EXCEPT ![inst[g]] = Tag(g)] /\ UNCHANGED val
                             ELSE val' = [val EXCEPT ![g] = Tag(g)] /\ UNCHANGED buf
           /\ Goto(g, "used") /\ Resume(g)
-          /\ UNCHANGED <<prog, k, inst, free, nextInst, held, result, lock, cached, miss, reading, writing>>
+          /\ UNCHANGED <<prog, k, inst, free, nextInst, held, result, lock, cached, miss, reading, writing, gscratch, hinst>>
 CopyOut(g) == /\ pc[g] = "used" /\ MayRun(g) /\ inst[g] # 0 /\ Api(g) \in Copies
               /\ val' = [val EXCEPT ![g] = buf[inst[g]]]
               /\ Goto(g, "copied") /\ Resume(g)
-              /\ UNCHANGED <<prog, k, inst, free, nextInst, buf, held, result, lock, cached, miss, reading, writing>>
+              /\ UNCHANGED <<prog, k, inst, free, nextInst, buf, held, result, lock, cached, miss, reading, writing, gscratch, hinst>>
 PoolPut(g) == /\ (pc[g] = "copied" \/ (pc[g] = "used" /\ (inst[g] = 0 \/ Api(g) \notin Copies))) /\ MayRun(g)
               /\ free' = IF inst[g] # 0 THEN [free EXCEPT ![PoolOf(Api(g))] = @ \cup {inst[g]}] ELSE free
               /\ Goto(g, "put") /\ Resume(g)
-              /\ UNCHANGED <<prog, k, inst, nextInst, buf, val, held, result, lock, cached, miss, reading, writing>>
+              /\ UNCHANGED <<prog, k, inst, nextInst, buf, val, held, result, lock, cached, miss, reading, writing, gscratch, hinst>>
 Return(g) == /\ pc[g] = "put" /\ MayRun(g)
              /\ LET copied == inst[g] = 0 \/ Api(g) \in Copies
                     tag    == IF copied THEN val[g] ELSE buf[inst[g]]
@@ -182,11 +236,11 @@ Return(g) == /\ pc[g] = "put" /\ MayRun(g)
                    /\ held' = [held EXCEPT ![g] = @ \cup {[call |-> k[g], ref |-> ref, tag |-> tag]}]
              /\ inst' = [inst EXCEPT ![g] = 0] /\ k' = [k EXCEPT ![g] = @ + 1]
              /\ Goto(g, "idle") /\ Resume(g)
-             /\ UNCHANGED <<prog, free, nextInst, buf, val, lock, cached, miss, reading, writing>>
+             /\ UNCHANGED <<prog, free, nextInst, buf, val, lock, cached, miss, reading, writing, gscratch, hinst>>
 
 Step(g) == \/ PoolGet(g) \/ NoPoolStart(g) \/ CacheLock(g) \/ CacheReadBegin(g) \/ CacheReadEnd(g)
            \/ CacheWriteBegin(g) \/ CacheWriteEnd(g) \/ CacheUnlock(g) \/ RegistryRead(g) \/ RegistryDone(g)
-           \/ Use(g) \/ CopyOut(g) \/ PoolPut(g) \/ Return(g)
+           \/ ScratchBegin(g) \/ HookRun(g) \/ Use(g) \/ CopyOut(g) \/ PoolPut(g) \/ Return(g)
 Next == \E g \in G : Step(g)
 Spec == Init /\ [][Next]_vars
 
@@ -199,7 +253,7 @@ BufferIsolation == \A g \in G : \A x \in held[g] : x.ref # 0 => buf[x.ref][1] = 
 NoUnlockedWriteRead == \A w \in writing : \A x \in reading \cup writing : x = w \/ x[2] # w[2]
 SequentialEquivalence == \A g \in G : \A i \in 1..Len(result[g]) : result[g][i] = <<g, i>>
 
-DesignView == <<prog, k, pc, inst, free, nextInst, buf, val, held, result, lock, cached, miss, reading, writing>>
+DesignView == <<prog, k, pc, inst, free, nextInst, buf, val, held, result, lock, cached, miss, reading, writing, gscratch, hinst>>
 AllDone == \A g \in G : ~Active(g)
 \* behaviour generation: one line per complete schedule (programs + the goroutine resumed at each gate)
 Emit == ~AllDone \/ PrintT(<<"S", ToJson([prog |-> prog, sched |-> sched])>>)
